@@ -4,7 +4,25 @@
 
 pub use core_h::common;
 
+/// ST4: the regex crate is never executed (Kani 0.68 even fails to *compile* its
+/// `regex_automata::meta::strategy::new`: internal compiler error in
+/// `codegen_get_discriminant`).  Every harness that can reach `Regex::new` stubs it with
+/// this function (`-Z stubbing`): compilation of a regex may fail -- which is exactly what
+/// `Regex::new` is allowed to do for a user-supplied string -- and it never succeeds, so no
+/// claim is ever made about what a regex matches.
+pub fn stub_regex_new(_re: &str) -> Result<regex::Regex, regex::Error> {
+  Err(regex::Error::Syntax(String::new()))
+}
+
 #[cfg(any(kani, test))]
 mod anb;
 #[cfg(any(kani, test))]
 mod small_kernels;
+#[cfg(any(kani, test))]
+pub mod c05_rel;
+#[cfg(any(kani, test))]
+pub mod c14_scan;
+#[cfg(any(kani, test))]
+mod c12_vars;
+#[cfg(any(kani, test))]
+mod c01_combined;
